@@ -66,6 +66,19 @@ theorem avg_retell_noop (s : Avg.State α) (k : Nat) (v : α) (h : Avg.hasKey k 
     Avg.tell s k v = s := by
   unfold Avg.tell; rw [if_pos h]
 
+/-- AverageLearner: marking a seed that already has a value pending changes nothing (since the repair
+`fix: AverageLearner.tell_pending marked an already evaluated seed as pending`) -/
+theorem avg_tellPending_known_noop (s : Avg.State α) (k : Nat) (h : Avg.hasKey k s.data = true) :
+    Avg.tellPending s k = s := by
+  unfold Avg.tellPending; rw [if_pos h]
+
+/-- AverageLearner: telling an already known seed again changes nothing observable ALSO when the seed was
+re-marked pending in between: after `tell(k, v)`, the sequence `tell_pending(k)`, `tell(k, w)` leaves the
+whole state as it was — for every state `s`, in particular every state reachable from `init`. -/
+theorem avg_retell_after_pending_noop (s : Avg.State α) (k : Nat) (v w : α) :
+    Avg.tell (Avg.tellPending (Avg.tell s k v) k) k w = Avg.tell s k v :=
+  Avg.tell_tellPending_tell s k v w
+
 theorem avg_removeUnfinished_spec (s : Avg.State α) :
     (Avg.removeUnfinished s).pending = [] ∧ (Avg.removeUnfinished s).data = s.data := ⟨rfl, rfl⟩
 end avg
@@ -114,14 +127,34 @@ theorem avg_data_is_first_told {α : Type} [Field α] [LinearOrder α] [IsStrict
   ⟨fun k => Avg.data_is_first_told atol rtol m ops k,
    (Avg.npoints_eq_distinct_told atol rtol m ops).1.trans (Avg.npoints_eq_distinct_told atol rtol m ops).2⟩
 
-/-- AverageLearner: along histories that never mark an already told seed pending, no told seed is pending.
-(For a told seed that IS marked pending again the code keeps it pending after a re-tell — the model has the
-same behaviour; recorded finding `C10.retold_point_still_pending:AverageLearner`.) -/
+/-- AverageLearner: in every state reachable from `init` — by EVERY op list — no told seed is pending.
+(Before the repair `fix: AverageLearner.tell_pending marked an already evaluated seed as pending` this needed
+the proviso `Avg.ValidOps`: "the history never marks an already told seed pending"; a told seed that WAS marked
+pending again stayed pending after a re-tell, the former finding
+`C10.retold_point_still_pending:AverageLearner`.  The name of the theorem is kept; it is no longer partial.) -/
 theorem avg_told_not_pending_partial {α : Type} [Field α] [LinearOrder α] [IsStrictOrderedRing α]
-    (atol rtol : Option α) (m : Nat) (ops : List (Avg.Op α)) (hv : Avg.ValidOps (Avg.init atol rtol m) ops) :
+    (atol rtol : Option α) (m : Nat) (ops : List (Avg.Op α)) :
     let s := Avg.run (Avg.init atol rtol m) ops
     (∀ k ∈ s.pending, Avg.hasKey k s.data = false) ∧ ∀ k, Avg.hasKey k s.data = true → k ∉ s.pending :=
-  Avg.told_not_pending_run atol rtol m ops hv
+  Avg.told_not_pending_run atol rtol m ops
+
+/-- AverageLearner: in every state reachable from `init`, after `tell(k, v)`, `tell_pending(k)`, `tell(k, w)` the
+state is the one right after the first `tell`, seed `k` has a value and is not pending. -/
+theorem avg_retell_after_pending_run {α : Type} [Field α] [LinearOrder α] [IsStrictOrderedRing α]
+    (atol rtol : Option α) (m : Nat) (ops : List (Avg.Op α)) (k : Nat) (v w : α) :
+    let s := Avg.run (Avg.init atol rtol m) ops
+    let t := Avg.tell (Avg.tellPending (Avg.tell s k v) k) k w
+    t = Avg.tell s k v ∧ Avg.hasKey k t.data = true ∧ k ∉ t.pending :=
+  Avg.tell_tellPending_tell_run atol rtol m ops k v w
+
+/-- AverageLearner: every seed a committing `ask(n)` returned is pending afterwards and stays pending until it is
+told or unfinished points are discarded (any state; `choice` = the code's pick in the fallback branch). -/
+theorem avg_asked_pending_until_told {α : Type} [Field α] [LinearOrder α] [IsStrictOrderedRing α]
+    (s : Avg.State α) (n : Nat) (choice pts : List Nat) (h : Avg.askPoints s n choice = some pts) :
+    ∀ p ∈ pts, p ∈ (Avg.step s (.askCommit pts)).pending ∧
+      ∀ ops : List (Avg.Op α), (∀ op ∈ ops, Avg.KeepsPending p op) →
+        p ∈ (Avg.run (Avg.step s (.askCommit pts)) ops).pending :=
+  Avg.ask_pending_until_told h
 
 /-- AverageLearner: discarding empties the pending set and equalises the two losses. -/
 theorem avg_removeUnfinished_losses {α : Type} [Field α] [LinearOrder α] [IsStrictOrderedRing α]
